@@ -221,4 +221,4 @@ def eval_case(case):
 
 def parts(tier):
     t = tier == 'thorough'
-    return [Part('cuts', eval_case, strategy=strategy, examples=300000 if t else 12000)]
+    return [Part('cuts', eval_case, strategy=strategy, examples=600000 if t else 12000)]
